@@ -516,6 +516,7 @@ class Env:
 
     def __init__(self, sym_facts=None, parent=None):
         self.ref = dict(parent.ref) if parent else {}
+        self.excl = dict(parent.excl) if parent else {}
         self.sym_facts = sym_facts if sym_facts else (parent.sym_facts if parent else None)
         self.cache = {}
 
@@ -691,12 +692,22 @@ class Env:
         return self._propagate(t, new)
 
     def assume_eq(self, t, v):
+        if v in self.excl.get(t, ()):
+            return False
         return self.assume(t, AV.const(t[1], v))
+
+    def possible(self, t, v):
+        """may term t take value v on this path?"""
+        if v in self.excl.get(t, ()):
+            return False
+        return self.av(t).contains(v)
 
     def assume_ne(self, t, v):
         cur = self.av(t)
         if cur.is_const():
             return cur.lo != v
+        if t[0] != 'c':
+            self.excl[t] = frozenset(self.excl.get(t, frozenset()) | {v})
         if cur.lo == v:
             return self.assume(t, AV(t[1], v + 1, cur.hi))
         if cur.hi == v:
